@@ -7,6 +7,7 @@ checked; the temporary lives in the destination's directory and is owned by a de
 value; nothing reachable from the writers, and no caller, writes the destination directly.
 """
 import re
+import re as _re
 
 from .. import mirg, rules
 from ..mirg import Cfg, iter_calls, callee, plocal
@@ -69,6 +70,54 @@ def dest_pred(prog, fn, spec):
                 if len(cands) == 1:
                     idx = cands[0]
     return lambda w: w[0] == local and len(w[1]) >= 1 and w[1][0] == idx
+
+
+MAKERS = _re.compile(r"(BufWriter|LineWriter)(::<[^>]*>)?::(new|with_capacity)$|csv::writer::Writer(::<[^>]*>)?::(from_writer|from_path)$|csv::writer::WriterBuilder::(from_writer|from_path)$")
+
+
+def buffered_writer_flush_rule(ctx, fn_paths, fns, pid, floor):
+    """buffering adapters (BufWriter, LineWriter, csv::Writer): Drop flushes and *discards* the error, so one created in a function
+    must be flushed (or into_inner'd) with a checked result on every success path of that function"""
+    R_buf = ctx.rule("%s.buffered-writer-flushed-and-checked" % pid, "every BufWriter/LineWriter/csv::Writer created in the write pipeline is flushed (or into_inner'd) with a checked result on every success path", floor=floor)
+    for p in sorted(fn_paths):
+        f = fns[p]
+        if not f.mir or not f.mir.get("blocks"):
+            continue
+        mk = [(bb, t) for bb, t in iter_calls(f) if MAKERS.search(ncallee(t) or "")]
+        if not mk:
+            ctx.ok(R_buf, p) if len(ctx.samples) < 300 else (ctx.rules[R_buf].__setitem__("obligations", ctx.rules[R_buf]["obligations"] + 1), ctx.rules[R_buf].__setitem__("discharged", ctx.rules[R_buf]["discharged"] + 1))
+            continue
+        ctx.saw_fn(f)
+        cfg = mirg.Cfg(f)
+        du = mirg.DefUse(f)
+        oks = [bb for bb, kind, _p in rules.success_exit_blocks(f) if kind in ("ok", "copy", "value", "call")]
+        for bb, t in mk:
+            bw = mirg.plocal(t["d"])
+            # names the buffer is moved/copied into
+            aliases = {bw}
+            changed = True
+            while changed:
+                changed = False
+                for b2 in f.mir["blocks"]:
+                    for st in b2["s"]:
+                        if st[0] == "=" and st[2][0] in ("use", "ref", "refmut") and any(mirg.op_local(o) in aliases for o in mirg.rvalue_operands(st[2])) and mirg.plocal(st[1]) not in aliases:
+                            aliases.add(mirg.plocal(st[1]))
+                            changed = True
+            fl = []
+            for b3, t3 in iter_calls(f):
+                if _re.search(r"::(flush|into_inner|into_parts)$", ncallee(t3) or "") and any(mirg.op_local(a) in aliases for a in t3["a"]):
+                    if rules.flows_to_check(f, None, mirg.plocal(t3["d"])):
+                        fl.append(b3)
+            escaped = 0 in aliases or any(st[0] == "=" and st[2][0] == "agg" and any(mirg.op_local(o) in aliases for o in mirg.rvalue_operands(st[2])) for b2 in f.mir["blocks"] for st in b2["s"])
+            after = cfg.reachable(t["t"]) if t.get("t") is not None else set()
+            exits = [e for e in oks if e in after]
+            if escaped:
+                ctx.ok(R_buf, {"fn": p, "line": t["ln"], "buffer_escapes": True})
+            elif fl and cfg.must_pass(set(fl), exits, start=t["t"])[0]:
+                ctx.ok(R_buf, {"fn": p, "line": t["ln"], "flush_blocks": fl})
+            else:
+                ctx.bad(R_buf, "%s|bufwriter-unflushed" % p, "%s:%d" % (f.file, t["ln"]), "a buffered writer is created here and can reach a success exit without a checked flush()/into_inner()",
+                        "its Drop flushes and throws the error away: if that last write fails the function still returns Ok and the incomplete temporary is committed over the destination")
 
 
 def _after_success(fn, cfg, t):
@@ -262,46 +311,7 @@ def run(ctx):
         if not nb:
             ctx.ok(R_short, p)
 
-    # buffering adapters: a BufWriter's Drop flushes and *discards* the error, so one created on the staged file must be flushed
-    # explicitly (and checked) before the function can succeed
-    R_buf = ctx.rule("C12.buffered-writer-flushed-and-checked", "every BufWriter/LineWriter created in the write pipeline is flushed (or into_inner'd) with a checked result on every success path", floor=50)
-    for p in sorted(cg.local_reachable(list(WRITERS))):
-        f = cg.fns[p]
-        mk = [(bb, t) for bb, t in iter_calls(f) if _re.search(r"(BufWriter|LineWriter)(::<[^>]*>)?::(new|with_capacity)$", ncallee(t) or "")]
-        if not mk:
-            ctx.ok(R_buf, p)
-            continue
-        ctx.saw_fn(f)
-        cfg = mirg.Cfg(f)
-        du = mirg.DefUse(f)
-        oks = [bb for bb, kind, _p in rules.success_exit_blocks(f) if kind in ("ok", "copy", "value", "call")]
-        for bb, t in mk:
-            bw = mirg.plocal(t["d"])
-            # names the buffer is moved/copied into
-            aliases = {bw}
-            changed = True
-            while changed:
-                changed = False
-                for b2 in f.mir["blocks"]:
-                    for st in b2["s"]:
-                        if st[0] == "=" and st[2][0] in ("use", "ref", "refmut") and any(mirg.op_local(o) in aliases for o in mirg.rvalue_operands(st[2])) and mirg.plocal(st[1]) not in aliases:
-                            aliases.add(mirg.plocal(st[1]))
-                            changed = True
-            fl = []
-            for b3, t3 in iter_calls(f):
-                if _re.search(r"::(flush|into_inner|into_parts)$", ncallee(t3) or "") and any(mirg.op_local(a) in aliases for a in t3["a"]):
-                    if rules.flows_to_check(f, None, mirg.plocal(t3["d"])):
-                        fl.append(b3)
-            escaped = 0 in aliases or any(st[0] == "=" and st[2][0] == "agg" and any(mirg.op_local(o) in aliases for o in mirg.rvalue_operands(st[2])) for b2 in f.mir["blocks"] for st in b2["s"])
-            after = cfg.reachable(t["t"]) if t.get("t") is not None else set()
-            exits = [e for e in oks if e in after]
-            if escaped:
-                ctx.ok(R_buf, {"fn": p, "line": t["ln"], "buffer_escapes": True})
-            elif fl and cfg.must_pass(set(fl), exits, start=t["t"])[0]:
-                ctx.ok(R_buf, {"fn": p, "line": t["ln"], "flush_blocks": fl})
-            else:
-                ctx.bad(R_buf, "%s|bufwriter-unflushed" % p, "%s:%d" % (f.file, t["ln"]), "a buffered writer is created here and can reach a success exit without a checked flush()/into_inner()",
-                        "its Drop flushes and throws the error away: if that last write fails the function still returns Ok and the incomplete temporary is committed over the destination")
+    buffered_writer_flush_rule(ctx, cg.local_reachable(list(WRITERS)), cg.fns, "C12", floor=50)
 
     # reachable set: no other fs mutation
     reach = cg.local_reachable(list(WRITERS))
